@@ -119,6 +119,15 @@ CHECKS = {
          "validated by TLC against the model (Trace_DataImpl), internal disagreement being MODEL-DRIFT only.",
     technique="TLA+ refinement DataImpl => Dataset checked by TLC over all request histories; behaviours replayed into verif.data.Data; hook traces validated by TLC",
     ref="6/C18"),
+ "C20": dict(
+    text="Scripts.tla specifies accumulate (trailing sums by steps, incomplete windows missing, -i, cumulative without -w; lemma "
+         "Accumulate = PreAgg(sum) on unit grids, tying it to C15), ens2prob (cdf between the strict and non-strict member fractions, "
+         "hence in [0,1] and monotone; quantiles within the member range and non-decreasing; PIT = fraction of members below the "
+         "observation, missing where it is missing) and expandverif (valid-time matching with a soundness lemma); TLC enumerates inputs "
+         "with missing values x all options from small menus and each case is run through the real script's main() on a text or NetCDF "
+         "input, the written file being read back with netCDF4 directly.",
+    technique="TLA+ spec (Scripts.tla, Aggregators.tla) model-checked with TLC; enumerated inputs/options run through the scripts and their output files compared with the spec",
+    ref="6/C20"),
 }
 REASON_WIP = "check not built yet (work in progress; the TLA+ technique applies, see DESIGN.md section 6)"
 NOT_APPLICABLE = {}
